@@ -172,7 +172,7 @@ def opt_take(ctx, args, st):
     return ret(st, o)
 
 
-@model(OPT + r'ok$|^Result::<.*>::ok$')
+@model(r'^(?:std::result::|core::result::)?Result::<.*>::ok$')
 def res_ok(ctx, args, st):
     o = args[0]
     if is_adt(o, 'Result'):
@@ -366,12 +366,20 @@ def int_checked(ctx, args, st):
     return g()
 
 
-@model(r'^(?:core::num::<impl (\w+)>|(\w+))::(wrapping_add|wrapping_sub|wrapping_mul|wrapping_neg)$')
+@model(r'^(?:core::num::<impl (\w+)>|(\w+))::(wrapping_add|wrapping_sub|wrapping_mul|wrapping_neg|wrapping_rem|wrapping_div)$')
 def int_wrapping(ctx, args, st):
     a = args[0]
     if not isinstance(a, Int): return None
     op = ctx.callee.rsplit('::', 1)[-1]
     if op == 'wrapping_neg': return ret(st, Int(z3.simplify(-a.e), a.ty))
+    if op in ('wrapping_rem', 'wrapping_div'):
+        b = args[1]
+        def g():
+            for s2, z in ctx.ex.fork_bool(st, b.e == 0):
+                if z: yield s2, 'panic', 'assert: attempt to divide by zero / calculate the remainder with a divisor of zero'
+                # SMT-LIB bvsdiv/bvsrem already wrap: MIN / -1 = MIN, MIN % -1 = 0
+                else: yield s2, 'ret', ctx.ex.binop('Rem' if op == 'wrapping_rem' else 'Div', a, b)
+        return g()
     return ret(st, ctx.ex.binop({'wrapping_add': 'Add', 'wrapping_sub': 'Sub', 'wrapping_mul': 'Mul'}[op], a, args[1]))
 
 
